@@ -24,7 +24,9 @@ type SuiteSel struct {
 	ViaProposal bool `json:"via_proposal,omitempty"`
 }
 
-func (s SuiteSel) Ref() ref.Suite { return ref.Suite{Encr: ref.Encrs[s.Encr], Integ: ref.Integs[s.Integ]} }
+func (s SuiteSel) Ref() ref.Suite {
+	return ref.Suite{Encr: ref.Encrs[s.Encr], Integ: ref.Integs[s.Integ]}
+}
 
 func (s SuiteSel) String() string {
 	return fmt.Sprintf("%s+%s", ref.Encrs[s.Encr].Name, ref.Integs[s.Integ].Name)
